@@ -1,6 +1,7 @@
 package drv
 
 import (
+	"bytes"
 	"fmt"
 	"net"
 	"runtime"
@@ -40,6 +41,7 @@ func Lifecycle(a Args) {
 	type stream struct {
 		name  string
 		parts [][]byte
+		only  []int // when set: exactly these prefix lengths (a very long stream)
 	}
 	big := MCmd{Op: "set", K: "k1", V: []int{1, 2, 3, 4}, F: 2}
 	var streams []stream
@@ -65,6 +67,12 @@ func Lifecycle(a Args) {
 		add("quiet-batch-noop", MCmd{Op: "get", Keys: []string{"k1", "k2", "k1"}, Quiet: []bool{true, true, true}, NoopEnd: true})
 		add("quiet-batch-get", MCmd{Op: "get", Keys: []string{"k2", "k1"}, Quiet: []bool{true, false}})
 		add("quiet-set", MCmd{Op: "set", K: "k2", V: []int{3}, Quiet: []bool{true}}, MCmd{Op: "noop"})
+	}
+	if text {
+		// a command line longer than the parser accepts (64 KiB), never terminated: the client leaves inside it,
+		// right at the limit, and beyond it
+		long := append([]byte("get "), bytes.Repeat([]byte("k"), 70000)...)
+		streams = append(streams, stream{name: "overlong-line", parts: [][]byte{long}, only: []int{4, 4096, 65535, 65536, 65537, 65600, len(long)}})
 	}
 	// all hits: the server has several values to relay after the last request byte
 	add("mget-hits", MCmd{Op: "get", Keys: []string{"k1", "k1", "k1", "k1", "k1", "k1"}, Quiet: []bool{false, false, false, false, false, false}})
@@ -148,7 +156,15 @@ func Lifecycle(a Args) {
 				holding, arrived, release = true, make(chan struct{}), make(chan struct{})
 				hmu.Unlock()
 			}
-			if a.N > 0 && k != 0 && k != len(all) && !bounds[k] && (k*7919+int(a.Seed)*104729)%a.N != 0 {
+			if s.only != nil {
+				keep := held
+				for _, o := range s.only {
+					keep = keep || o == k
+				}
+				if !keep {
+					continue
+				}
+			} else if a.N > 0 && k != 0 && k != len(all) && !bounds[k] && (k*7919+int(a.Seed)*104729)%a.N != 0 {
 				continue
 			}
 			conn, err := net.Dial("unix", st.Socks[port])
